@@ -34,7 +34,7 @@ def stream(rng, npk, skip, big=False):
 def generate(rng, tier):
     yield "const hdrlen", "const"
     yield "const trim", "const"
-    n = 60 if tier == "quick" else 1500
+    n = 120 if tier == "quick" else 1500
     kinds = ["bytes", "file", "socket"]
     for i in range(n):
         skip = rng.choice([0, 0, 0, 1, 2, 4, 9])
